@@ -14,6 +14,8 @@
 //
 // complete short names to long names if possible
 
+#[cfg(bpaf_verif)]
+use crate::verif::std;
 use crate::{
     args::{Arg, State},
     complete_shell::{render_bash, render_fish, render_simple, render_test, render_zsh},
